@@ -1,5 +1,5 @@
 // Package fx is a positive control for rule C14/R2 (never part of /repo):
-// every function but readonly and looked writes package-level state.
+// every function but readonly, looked and builtOnce writes package-level state.
 package fx
 
 import "sync"
@@ -20,4 +20,21 @@ func readonly() int {
 		local[k] = v
 	}
 	return local["x"] + counter
+}
+
+var (
+	once  sync.Once
+	built map[string]int
+)
+
+// builtOnce initialises shared state once per process from nothing of the call
+func builtOnce() map[string]int {
+	once.Do(func() { built = map[string]int{"a": 1} })
+	return built
+}
+
+// builtFromArg: what the first caller passes decides what every later caller sees
+func builtFromArg(k string) map[string]int {
+	once.Do(func() { built = map[string]int{k: 1} })
+	return built
 }
